@@ -6,6 +6,8 @@ import (
 	"reflect"
 	"testing"
 
+	"github.com/go-kid/ioc/app"
+	"github.com/go-kid/ioc/definition"
 	"pgregory.net/rapid"
 	"verif/harness/graph"
 	"verif/harness/kit"
@@ -37,14 +39,30 @@ type RunLazy struct{ zoo.Core }
 func (r *RunLazy) LazyInit()  {}
 func (r *RunLazy) Run() error { return run(r.B) }
 
+// causeless: a legal error value whose Cause() is nil (e.g. an OpError without inner error).
+type causeless struct{ op string }
+
+func (c *causeless) Error() string { return "operation " + c.op + " failed" }
+func (c *causeless) Cause() error  { return nil }
+
 func run(b *zoo.Beh) error {
 	b.RunCalls++
 	b.Log.Add(zoo.Event{Kind: "run", ID: b.ID})
-	if b.FailRun != 0 {
+	switch b.FailRun {
+	case 1:
 		return zoo.ErrInjected
+	case 2:
+		return fmt.Errorf("wrapped: %w", zoo.ErrInjected)
+	case 3:
+		return &causeless{"run"}
 	}
 	return nil
 }
+
+// ghost: a runner that is NOT registered; it sits in the App's exported runner slice before the start.
+type ghost struct{ calls int }
+
+func (g *ghost) Run() error { g.calls++; return nil }
 
 type rspec struct {
 	Class int // 0 P, 1 O, 2 N, 3 lazy-unordered
@@ -88,7 +106,7 @@ func TestRunners(t *testing.T) {
 			}
 			b := &zoo.Beh{ID: len(in.Comps) + len(in.Extra), Alias: fmt.Sprintf("runner-%d", i), Mask: "m0", Log: in.Log, OrderVal: specs[i].Ord}
 			if i == failing {
-				b.FailRun = 1
+				b.FailRun = rapid.IntRange(1, 3).Draw(t, "errkind")
 			}
 			// occasionally the runner's own initialisation fails (always, or only at the first attempt)
 			if rapid.IntRange(0, 11).Draw(t, "initfault") == 0 {
@@ -116,8 +134,17 @@ func TestRunners(t *testing.T) {
 		for k := 0; k < nobs; k++ {
 			in.Extra = append(in.Extra, &graph.ObsPP{Tag: fmt.Sprintf("o%d", k), Log: in.Log})
 		}
+		// sometimes the App's exported runner slice already holds something when the start begins
+		var gh *ghost
+		if nr > 0 && rapid.IntRange(0, 3).Draw(t, "prefilledrunners") == 0 {
+			gh = &ghost{}
+			in.Pre = func(a *app.App) { a.ApplicationRunners = []definition.ApplicationRunner{gh, gh} }
+		}
 		in.Run()
-		desc := fmt.Sprintf("%s runners=%v failing=%d obs=%d initfaults=%d", s.Shape(), specs, failing, nobs, initFaults)
+		desc := fmt.Sprintf("%s runners=%v failing=%d obs=%d initfaults=%d ghost=%v", s.Shape(), specs, failing, nobs, initFaults, gh != nil)
+		if gh != nil && gh.calls > 0 {
+			t.Fatalf("C13: a runner that is not registered (left over in the App's runner slice before the start) was invoked %d times\n%s", gh.calls, desc)
+		}
 		if in.Out.Panic != nil {
 			t.Fatalf("C13: panic %v\n%s", in.Out.Panic, desc)
 		}
